@@ -5,7 +5,7 @@ From Coq Require Import ZArith QArith List Bool.
 From EosV Require Import lib.AList gen.T_eos model.World model.Status model.Calc model.Engine model.Ops.
 Import ListNotations.
 
-Definition dk (d : derived) := (d_calcs d, d_next d, d_pen d, d_trace d).
+Definition dk (d : derived) := (d_calcs d, d_next d, d_pen d, d_trace d, d_pysubs d).
 
 Lemma dk_dfail d e : dk (dfail d e) = dk d.
 Proof. unfold dfail. destruct (d_err d); reflexivity. Qed.
@@ -40,16 +40,89 @@ Proof.
   assert (Hg : forall acc s, dk (fst (gather acc s)) = dk (fst acc)).
   { intros [d0 mods] s. unfold gather. cbn [fst].
     destruct (negb (m_tgt_attr (sp_mod s) =? a)%Z); [reflexivity|].
-    pose proof (IH w d0 (sp_item s) (m_src_attr (sp_mod s))) as H1.
-    destruct (read_attr fuel w d0 (sp_item s) (m_src_attr (sp_mod s))) as [d1 ov]. cbn [fst] in H1.
-    destruct ov as [v|]; [|exact H1].
+    (* operator and value of the modification *)
+    assert (Hmod : forall (K : derived * option (Z * Q) -> derived * list gmod),
+               (forall d1 om, dk d1 = dk d0 -> dk (fst (K (d1, om))) = dk d0) ->
+               dk (fst (K
+                 (if (m_py (sp_mod s) =? 0)%Z then
+                    let (d, ov) := read_attr fuel w d0 (sp_item s) (m_src_attr (sp_mod s)) in
+                    (d, match ov with Some v => Some (m_op (sp_mod s), v) | None => None end)
+                  else if (m_py (sp_mod s) =? 1)%Z then
+                    match (match item_fit w (sp_item s) with
+                           | Some pf => match get_fit w pf with Some ft => f_ship ft | None => None end
+                           | None => None end) with
+                    | None => (d0, None)
+                    | Some ship =>
+                      let (d, om) := read_attr fuel w d0 ship AttrId_mass in
+                      match om with
+                      | None => (d, None)
+                      | Some mass =>
+                        let (d, osf) := read_attr fuel w d (sp_item s) AttrId_speed_factor in
+                        match osf with
+                        | None => (d, None)
+                        | Some sf =>
+                          let (d, oth) := read_attr fuel w d (sp_item s) AttrId_speed_boost_factor in
+                          match oth with
+                          | None => (d, None)
+                          | Some th =>
+                            if Qeq_bool mass 0%Q then (d, None)
+                            else (d, Some (ModOperator_post_mul, Qred (1 + sf * th / mass / 100)%Q))
+                          end
+                        end
+                      end
+                    end
+                  else if (m_py (sp_mod s) =? 2)%Z then
+                    match get_item w (sp_item s) with
+                    | None => (d0, None)
+                    | Some ai =>
+                      let paste := match i_charge ai with
+                                   | Some c => match get_item w c with
+                                               | Some ci => (i_tid ci =? TypeId_nanite_repair_paste)%Z
+                                               | None => false end
+                                   | None => false end in
+                      if paste then
+                        let (d, ov) := read_attr fuel w d0 (sp_item s) AttrId_charged_armor_dmg_mult in
+                        (d, match ov with Some v => Some (ModOperator_post_mul_immune, v) | None => None end)
+                      else (d0, Some (ModOperator_post_mul_immune, 1%Q))
+                    end
+                  else (d0, None)))) = dk d0).
+    { intros K HK.
+      destruct (m_py (sp_mod s) =? 0)%Z.
+      - pose proof (IH w d0 (sp_item s) (m_src_attr (sp_mod s))) as H1.
+        destruct (read_attr fuel w d0 (sp_item s) (m_src_attr (sp_mod s))) as [d1 ov]. now apply HK.
+      - destruct (m_py (sp_mod s) =? 1)%Z.
+        + destruct (match item_fit w (sp_item s) with
+                    | Some pf => match get_fit w pf with Some ft => f_ship ft | None => None end
+                    | None => None end) as [ship|]; [|now apply HK].
+          pose proof (IH w d0 ship AttrId_mass) as Ha.
+          destruct (read_attr fuel w d0 ship AttrId_mass) as [d1 om]. cbn [fst] in Ha.
+          destruct om as [mass|]; [|now apply HK].
+          pose proof (IH w d1 (sp_item s) AttrId_speed_factor) as Hb.
+          destruct (read_attr fuel w d1 (sp_item s) AttrId_speed_factor) as [d2 osf]. cbn [fst] in Hb.
+          destruct osf as [sf|]; [|apply HK; congruence].
+          pose proof (IH w d2 (sp_item s) AttrId_speed_boost_factor) as Hc.
+          destruct (read_attr fuel w d2 (sp_item s) AttrId_speed_boost_factor) as [d3 oth]. cbn [fst] in Hc.
+          destruct oth as [th|]; [|apply HK; congruence].
+          destruct (Qeq_bool mass 0%Q); apply HK; congruence.
+        + destruct (m_py (sp_mod s) =? 2)%Z; [|now apply HK].
+          destruct (get_item w (sp_item s)) as [ai|]; [|now apply HK].
+          cbv zeta.
+          destruct (match i_charge ai with
+                    | Some c => match get_item w c with
+                                | Some ci => (i_tid ci =? TypeId_nanite_repair_paste)%Z
+                                | None => false end
+                    | None => false end); [|now apply HK].
+          pose proof (IH w d0 (sp_item s) AttrId_charged_armor_dmg_mult) as H1.
+          destruct (read_attr fuel w d0 (sp_item s) AttrId_charged_armor_dmg_mult) as [d1 ov]. now apply HK. }
+    apply (Hmod (fun x => let (d, omod) := x in _)).
+    intros d1 omod H1. destruct omod as [[mop v]|]; [|exact H1].
     match goal with |- context[let (_, _) := ?X in _] => set (X0 := X) end.
     assert (H2 : dk (fst X0) = dk d1).
     { subst X0. destruct (sp_resist s) as [ra|]; [|reflexivity].
       destruct (solsys_carrier w i) as [[car|]|]; cbn [fst]; [|reflexivity|apply dk_dfail].
       pose proof (IH w d1 car ra) as H3. destruct (read_attr fuel w d1 car ra). exact H3. }
     destruct X0 as [d2 resist]. cbn [fst] in H2.
-    destruct (al_get zeqb NORMALIZATION_MAP (m_op (sp_mod s))) as [ne|]; [|cbn [fst]; congruence].
+    destruct (al_get zeqb NORMALIZATION_MAP mop) as [ne|]; [|cbn [fst]; congruence].
     destruct (normalize ne v); [|cbn [fst]; rewrite dk_dfail; congruence].
     destruct (get_item w (sp_item s)) as [ai|]; [|cbn [fst]; rewrite dk_dfail; congruence].
     destruct (item_type w ai); cbn [fst]; [congruence|rewrite dk_dfail; congruence]. }
